@@ -196,7 +196,7 @@ def sample_c31(cases, rng, per_tool=20):
     """Quick sample of the flag matrix: for every tool, every flag whose value decides the outcome is present
     once as a flag and once as an environment variable with the other flags set so that it does decide."""
     pick = {}
-    given = lambda c, k: c[k] != "absent"
+    given = lambda c, k: c[k] in ("flag", "env")
     for tool in TOOLS:
         mine = [c for c in cases if c["tool"] == tool]
         plain = [c for c in mine if not c["empty"]]
@@ -210,6 +210,11 @@ def sample_c31(cases, rng, per_tool=20):
             one(lambda c: c["insec"] == src and given(c, "cred") and not given(c, "dtls"))       # may talk in clear
             one(lambda c: c["dtls"] == src and given(c, "cred") and not given(c, "insec"))       # must use DTLS
             one(lambda c: c["pw"] == src and not given(c, "cred") and not given(c, "dtls"))      # password only: no AUTH
+        for src in ("flag0", "env0"):
+            # an option explicitly set to false is not given: credentials + "--insecure=false" must refuse, ...
+            one(lambda c: c["insec"] == src and given(c, "cred") and not given(c, "dtls"))
+            one(lambda c: c["dtls"] == src and given(c, "cred") and not given(c, "insec"))
+            one(lambda c: c["cred"] == src and not given(c, "dtls"))
         one(lambda c: not given(c, "cred") and not given(c, "dtls") and not given(c, "insec") and not given(c, "pw"))
         one(lambda c: not given(c, "cred") and given(c, "dtls"))
         empties = [c for c in mine if c["empty"]]
@@ -382,7 +387,8 @@ def run_c31(tier, replay):
                traces_validated_against_impl=len(alllines),
                evaluations=len(lines) + nsteps, distinct_nontrivial=result.get("nontrivial", 0),
                rule="command line: TLC enumerates {--auth|--user, --password, --dtls(+--self-signed), --insecure} x "
-                    "{absent, flag, env} for the three tools (243) plus the empty-user variants (108) = %d runs; %s. "
+                    "{absent, flag, env; boolean options also flag=false, env=false, one at a time} for the three tools "
+                    "plus the empty-user variants = %d runs; %s. "
                     "library: one Connect()/retry/re-connect schedule per transition of SpecLib (%d), all executed on the "
                     "real client in a synctest bubble.  non-trivial = runs with credentials configured + schedule steps "
                     "in which the client sent a CONNECT" % (total, "all run" if tier == "thorough" else
